@@ -24,6 +24,30 @@ PROPS = {
     },
 }
 
+PROPS["C14"] = {
+    "worker": "c14",
+    "variant": "chk",
+    "level": "exploration",
+    "rule": ("case = random valid ImageHeader (every conditional field; U32/U64 selectors randomised incl. non-minimal forms; F16 over "
+             "finite patterns) + FrameHeader (all frame types/encodings/flags/passes/crops/blend infos/filters) + TOC (1..20000 "
+             "entries, optional Lehmer-coded permutation, all four size forms), written by jxlgen, parsed by ImageHeader::parse and "
+             "Frame::parse; every public field, derived value and the bit position after each bundle is compared. signature = "
+             "(8 image-header branch bits, 8 frame-header branch bits, TOC size class, permuted); every case non-trivial. "
+             "observed ibNN_v / fbNN_v count how often each of 34+34 branch conditions was seen false/true"),
+    "assumptions": [
+        "jxlgen header writer follows the format's field tables; independent of the decoder's bundle macros",
+        "extra-channel blending `source` presence is only generated where the two possible readings of the condition agree (DESIGN.md section 6)",
+        "TOC entries <= 20000; ICC stream not placed between image header and frame here (C18 covers ICC)",
+    ],
+    "level_text": ("exploration: hundreds of thousands of random valid header bundles per run, each field and the exact bit count "
+                   "compared; the header space is a product of ~70 conditionals and wide integer ranges, so sampling stratified by "
+                   "branch bits is what a runtime monitor can do"),
+    "level_note": "trusted: jxlgen header writer + comparison code in vcheck/src/c14.rs",
+    "technique": "runtime differential monitor: independent header writer -> real parser, field-by-field and bit-position oracle",
+    "quick": {"cases": 300000, "floor": 100000, "time_budget": 300},
+    "thorough": {"cases": 12000000, "floor": 2000000, "time_budget": 3000},
+}
+
 ALL = ["C%02d" % i for i in range(1, 21)]
 HOOK_COMMITS = []
 NOT_APPLICABLE = {p: "check not built yet in this session (work in progress; see DESIGN.md section 9 for order)" for p in ALL if p not in PROPS}
